@@ -13,7 +13,7 @@ import (
 func init() {
 	register(&propDef{
 		ID:          "C10",
-		Explanation: "Decides the error discipline and buffer ownership on every path of generated and runtime code: R1 every statement the generator can emit that assigns the render error from a call (writes, literal writes, nested Render, RenderAttributes/CSS/Script items, expression evaluation) is immediately followed by an emitted `if err != nil { return … }` (all GEM emission paths, incl. the literal-closing template of the range writer); R2 expression evaluations are followed by the handler that wraps the error in templ.Error{FileName, Line from that same expression}; R3 the emitted template body returns ctx.Err() before acquiring the buffer or writing anything; R4 the emitted body releases the buffer only in a defer, only when it acquired it, and adopts the flush error iff no earlier error; R5 in packages templ and templ/runtime every error returned by a write to / render into the writer is propagated to a return on every path (no dropped or overwritten error); R6 pooled buffers are reset (on acquisition or before release) and flushed before being returned to the pool. R8 every runtime function that takes the expression's errors as a variadic ...error parameter hands the whole list to errors.Join or to another such function, and no condition inspects a single element of it (a guard on errs[0] alone drops an error that arrives second, as in `{{ v, errA, errB }}`); R9 the memory of a pooled buffer is not used after the buffer went back to the pool. R10 (= C15.R8) the generator options handed to concurrent workers are not appended to in place on a slice with spare capacity (a worker would otherwise generate a file with another template's file name in its error locations). R11 a parser.Expression literal built by the generator that embeds a user expression's text keeps that expression's Range (the emitted error handler takes Line/Col from it), and the handler emitter reads that Range; R12 no runtime function writes to the buffer's underlying writer itself — only the bufio.Writer does, which is what turns a short write with a nil error into io.ErrShortWrite. NOT decided: the prefix property at each byte offset, behaviour of user writers. R13 element-write loops are left early only with the write error; R14 a style-value handler never returns (not handled, error value); R15 every path of (*Buffer).Flush calls the bufio writer's Flush (which reports the remembered write error). R16 no error result of packages templ / runtime / safehtml is dropped (implicitly, or stored and overwritten before it is read); R17 an error that was detected is returned on that path; R18 a component closure keeps no state between renders. R5 also, for writes made through a sticky error cell (a struct that keeps the first write error; its storing methods start with `if r.err != nil { return }`): every return reachable from a write through the cell hands back the cell's error or follows a test of it, and the cell's error is not assigned directly after a write. R19 fmt.Errorf uses %w for every error argument (the cause stays in the chain). R20 no deferred call writes to the render writer (a closing tag after a failed body). R21 (= C11.R12) bytes.NewBuffer is never given a zero-filled make([]byte, n).",
+		Explanation: "Decides the error discipline and buffer ownership on every path of generated and runtime code: R1 every statement the generator can emit that assigns the render error from a call (writes, literal writes, nested Render, RenderAttributes/CSS/Script items, expression evaluation) is immediately followed by an emitted `if err != nil { return … }` (all GEM emission paths, incl. the literal-closing template of the range writer); R2 expression evaluations are followed by the handler that wraps the error in templ.Error{FileName, Line from that same expression}; R3 the emitted template body returns ctx.Err() before acquiring the buffer or writing anything; R4 the emitted body releases the buffer only in a defer, only when it acquired it, and adopts the flush error iff no earlier error; R5 in packages templ and templ/runtime every error returned by a write to / render into the writer is propagated to a return on every path (no dropped or overwritten error); R6 pooled buffers are reset (on acquisition or before release) and flushed before being returned to the pool. R8 every runtime function that takes the expression's errors as a variadic ...error parameter hands the whole list to errors.Join or to another such function, and no condition inspects a single element of it (a guard on errs[0] alone drops an error that arrives second, as in `{{ v, errA, errB }}`); R9 the memory of a pooled buffer is not used after the buffer went back to the pool. R10 (= C15.R8) the generator options handed to concurrent workers are not appended to in place on a slice with spare capacity (a worker would otherwise generate a file with another template's file name in its error locations). R11 a parser.Expression literal built by the generator that embeds a user expression's text keeps that expression's Range (the emitted error handler takes Line/Col from it), and the handler emitter reads that Range; R12 no runtime function writes to the buffer's underlying writer itself — only the bufio.Writer does, which is what turns a short write with a nil error into io.ErrShortWrite. NOT decided: the prefix property at each byte offset, behaviour of user writers. R13 element-write loops are left early only with the write error; R14 a style-value handler never returns (not handled, error value); R15 every path of (*Buffer).Flush calls the bufio writer's Flush (which reports the remembered write error). R16 no error result of packages templ / runtime / safehtml is dropped (implicitly, or stored and overwritten before it is read); R17 an error that was detected is returned on that path; R18 a component closure keeps no state between renders. R5 also, for writes made through a sticky error cell (a struct that keeps the first write error; its storing methods start with `if r.err != nil { return }`): every return reachable from a write through the cell hands back the cell's error or follows a test of it, and the cell's error is not assigned directly after a write. R19 fmt.Errorf uses %w for every error argument (the cause stays in the chain). R20 no deferred call writes to the render writer (a closing tag after a failed body). R21 (= C11.R12) bytes.NewBuffer is never given a zero-filled make([]byte, n). R8 also: no early return is chosen by len(errs) — the emitter spreads a (value, error) call into (v, errs...), so a successful call arrives with errs == [nil]. R14 also for named results: a bare return in the branch taken for a non-nil error while the `handled` result was never set.",
 		Assumptions: []string{"bufio.Writer reports a short write as an error; a returned error aborts the caller's rendering (checked for generated callers by R1)"},
 		Trusted:     []string{"go/types", "go/parser", "x/tools go/packages, go/cfg"},
 		Run:         runC10,
@@ -759,6 +759,7 @@ func variadicErrors(c *Ctx, rule string) {
 			key := funcKey(p, fd)
 			nspread := 0
 			bad := ""
+			badLen := ""
 			ast.Inspect(fd.Body, func(x ast.Node) bool {
 				switch x := x.(type) {
 				case *ast.CallExpr:
@@ -794,14 +795,32 @@ func variadicErrors(c *Ctx, rule string) {
 						}
 					}
 				case *ast.IfStmt:
+					countsList := false
 					ast.Inspect(x.Cond, func(y ast.Node) bool {
 						if ix, ok := y.(*ast.IndexExpr); ok {
 							if id, ok := ast.Unparen(ix.X).(*ast.Ident); ok && info.ObjectOf(id) == errsObj {
 								bad = "the condition `" + types.ExprString(x.Cond) + "` at " + c.pos(x.Pos()) + " inspects a single element of the error list"
 							}
 						}
+						if lc, ok := y.(*ast.CallExpr); ok && len(lc.Args) == 1 {
+							if f, ok := ast.Unparen(lc.Fun).(*ast.Ident); ok && f.Name == "len" {
+								if id, ok := ast.Unparen(lc.Args[0]).(*ast.Ident); ok && info.ObjectOf(id) == errsObj {
+									countsList = true
+								}
+							}
+						}
 						return true
 					})
+					// the list being non-empty is not a failure: the emitter spreads a (value, error) pair into (v, errs...),
+					// so a call that succeeded arrives as errs == [nil]. A branch chosen by len(errs) that leaves the function
+					// discards the value of every such expression while the render goes on to report success.
+					if countsList && badLen == "" {
+						for _, st := range x.Body.List {
+							if _, isRet := st.(*ast.ReturnStmt); isRet {
+								badLen = "the branch at " + c.pos(x.Pos()) + " is taken on `" + types.ExprString(x.Cond) + "` and returns"
+							}
+						}
+					}
 				}
 				return true
 			})
@@ -813,6 +832,8 @@ func variadicErrors(c *Ctx, rule string) {
 			default:
 				c.ok(rule, key+"|all-error-arguments-considered", c.pos(fd.Pos()), fmt.Sprintf("the whole list is handed on %d time(s); no single-element test", nspread))
 			}
+			c.check(badLen == "", rule, key+"|a-nil-error-in-the-list-is-success", c.pos(fd.Pos()), "no early return is chosen by the length of the list",
+				fd.Name.Name+": "+badLen+": the emitter hands a (value, error) call over as (v, errs...), so a call that succeeded arrives with errs == [nil]; the function then returns no value with a nil error — the expression is written empty and Render reports success for a document that is not the full one")
 		}
 	}
 	c.count("variadic_error_functions", n)
@@ -1145,6 +1166,67 @@ func unhandledCarriesNoError(c *Ctx, rule string) {
 			continue
 		}
 		ord := 0
+		// named results: a bare `return` hands back whatever they hold. The flag is false there unless it was assigned,
+		// and the error is set when the return stands in the branch taken for a non-nil error.
+		var flagObj, errObj types.Object
+		if rl := fd.Type.Results.List; len(rl) == 1 && len(rl[0].Names) == 2 {
+			flagObj, errObj = info.Defs[rl[0].Names[0]], info.Defs[rl[0].Names[1]]
+		} else if len(rl) == 2 && len(rl[0].Names) == 1 && len(rl[1].Names) == 1 {
+			flagObj, errObj = info.Defs[rl[0].Names[0]], info.Defs[rl[1].Names[0]]
+		}
+		if flagObj != nil && errObj != nil {
+			flagSet := false
+			ast.Inspect(fd.Body, func(x ast.Node) bool {
+				if as, ok := x.(*ast.AssignStmt); ok {
+					for _, l := range as.Lhs {
+						if id, ok := l.(*ast.Ident); ok && info.ObjectOf(id) == flagObj {
+							flagSet = true
+						}
+					}
+				}
+				return true
+			})
+			var ifs []*ast.IfStmt
+			var walk func(root ast.Node)
+			walk = func(root ast.Node) {
+				ast.Inspect(root, func(x ast.Node) bool {
+					switch t := x.(type) {
+					case *ast.FuncLit:
+						return false
+					case *ast.IfStmt:
+						if t.Init != nil {
+							walk(t.Init)
+						}
+						ifs = append(ifs, t)
+						walk(t.Body)
+						ifs = ifs[:len(ifs)-1]
+						if t.Else != nil {
+							walk(t.Else)
+						}
+						return false
+					case *ast.ReturnStmt:
+						if len(t.Results) != 0 || flagSet {
+							return true
+						}
+						inErrBranch := false
+						for _, is := range ifs {
+							if condTestsNonNil(info, is.Cond, errObj) {
+								inErrBranch = true
+							}
+						}
+						if !inErrBranch {
+							return true
+						}
+						ord++
+						n++
+						c.viol(rule, fmt.Sprintf("%s|return-false#%d|no-error", funcKey(p, fd), ord), c.pos(t.Pos()),
+							fmt.Sprintf("%s leaves with a bare return in the branch taken for a non-nil %s while its result %s was never set (false): its caller reads the error only when the value was handled, so this error is dropped — the unsupported-value text is written and Render returns nil although a style function failed", fd.Name.Name, errObj.Name(), flagObj.Name()))
+					}
+					return true
+				})
+			}
+			walk(fd.Body)
+		}
 		ast.Inspect(fd.Body, func(x ast.Node) bool {
 			if _, isLit := x.(*ast.FuncLit); isLit {
 				return false
